@@ -102,7 +102,8 @@ Definition kmult (k : kv) (u : Q) : res nat :=
   if kvalid1 k u then Ok (kmult_raw (kvec k) u) else Err ValueError.
 
 (* __add__ / __sub__ *)
-Definition kinsert (k : kv) (nodes : list Q) : res kv := make (sortq (kvec k ++ nodes)) None.
+Definition kinsert (k : kv) (nodes : list Q) : res kv :=
+  if kvalid k nodes then make (sortq (kvec k ++ nodes)) None else Err ValueError.
 
 Fixpoint remove1 (x : Q) (l : list Q) : option (list Q) :=
   match l with
